@@ -651,7 +651,8 @@ pub fn inflight_round(r: &mut Report, prop: &str, judge_refusals: bool, secrets:
     let w = world(rt, secrets);
     // how many other writes happen while the slow ones are open: mostly a handful, now and then a round number of
     // them (counters that wrap, names that are recycled, tables that fill up)
-    let m: usize = if big_m { *g.pick(&[100usize, 256, 1000, 1024]) + g.usize_below(3) } else { g.usize_below(9) };
+    // (a round number plus an eighth: deletes and refused copies among them allocate nothing)
+    let m: usize = if big_m { let b = *g.pick(&[100usize, 256, 1000, 1024]); b + b / 8 + g.usize_below(3) } else { g.usize_below(9) };
     let n_slow = 1 + g.usize_below(3);
     let contended = g.chance(1, 4);
     let mut previous: HashMap<String, Vec<u8>> = HashMap::new();
@@ -670,8 +671,9 @@ pub fn inflight_round(r: &mut Report, prop: &str, judge_refusals: bool, secrets:
             15..=17 => Fate::Dropped,
             _ => Fate::BadMd5,
         };
-        let start = g.usize_below(m + 1);
-        let end = start + g.usize_below(m + 1 - start);
+        // (with many other writes the first slow upload stays open through all of them)
+        let start = if big_m && i == 0 { 0 } else { g.usize_below(m + 1) };
+        let end = if big_m && i == 0 { m } else { start + g.usize_below(m + 1 - start) };
         if g.chance(1, 2) && !previous.contains_key(&key) {
             let p = vec![b'p'; 1 + g.usize_below(5000)];
             simple(rt, &w, &put_req(&key, &p));
